@@ -216,7 +216,7 @@ class ExpandActionsSurface(_NoShrink):
     frozen = frozenset({"na"})
 
     def impl(self, x):
-        from pycfmodel.action_expander import _expand_actions
+        _expand_actions = core.helper("pycfmodel.action_expander:_expand_actions")
         return core.impl_call(lambda: _expand_actions(x["x"], not_action=x["na"]))
 
     def model(self, rn, x):
@@ -237,7 +237,7 @@ class ExpandActionSurface(_NoShrink):
     frozen = frozenset({"na"})
 
     def impl(self, x):
-        from pycfmodel.action_expander import _expand_action
+        _expand_action = core.helper("pycfmodel.action_expander:_expand_action")
         return core.impl_call(lambda: _expand_action(x["p"], not_action=x["na"]))
 
     def model(self, rn, x):
